@@ -367,6 +367,28 @@ fn main() {
             if d != a {
                 rep.violation(&format!("C05/get-affects-later/{}", name), sub, case, format!("extra get() calls changed outputs; params={:?} history={:?} a={:?} d={:?}", p, h, a, d));
             }
+            // two live instances of the same stream type with different parameters, fed the same timestamps but other values,
+            // updated alternately: instance 1 must behave exactly as it does alone (nothing is shared between instances)
+            {
+                let mut r3 = Rng::new(args.seed, 1300 + kind as u64, case);
+                let p2 = Params { kind, f1: if matches!(kind, 2 | 3) { r3.unit() as f32 } else { r3.moderate(1e2) }, f2: r3.moderate(1e2), f3: r3.moderate(1e1), f4: r3.moderate(1e1), window: r3.step_ns(1, 36_000_000_000_000), cmd: gen_cmd(&mut r3) };
+                let h2: Vec<Evt> = h.iter().map(|e| { let mut e2 = e.clone(); if let Ev::Some(t, _) = e.input { if r3.chance(0.8) { e2.input = Ev::Some(t, [r3.moderate(1e4), r3.moderate(1e3), r3.moderate(1e2)]); } } e2 }).collect();
+                let (mut s1, mut s2) = (make(&p, p.cmd), make(&p2, p2.cmd));
+                let mut inter = Vec::with_capacity(h.len());
+                let mut inter2 = Vec::with_capacity(h.len());
+                let ok = catch(|| { for i in 0..h.len() { let _ = s1.step(&h[i]); inter.push(s1.get()); let _ = s2.step(&h2[i]); inter2.push(s2.get()); } }).is_ok();
+                rep.eval();
+                rep.tally("interleaved_instance_runs");
+                let (alone2, _, _) = run_all(&p2, p2.cmd, &h2, None);
+                if ok && !alone2.iter().any(|o| *o == Obs::Panic) && inter2 != alone2 {
+                    let k = (0..inter2.len().min(alone2.len())).find(|&k| inter2[k] != alone2[k]);
+                    rep.violation(&format!("C05/instances-not-independent/{}", name), sub, case, format!("second instance (params {:?}) run alone vs alternating with the first: first difference at event {:?} (alone {:?}, interleaved {:?}); first instance params={:?} history={:?}", p2, k, k.map(|k| &alone2[k]), k.map(|k| &inter2[k]), p, h));
+                }
+                if !ok || inter != a {
+                    let k = (0..inter.len().min(a.len())).find(|&k| inter[k] != a[k]);
+                    rep.violation(&format!("C05/instances-not-independent/{}", name), sub, case, format!("run alone vs alternating with a second {} (params {:?}): first difference at event {:?} (alone {:?}, interleaved {:?}{}); params={:?} history={:?}", name, p2, k, k.map(|k| &a[k]), k.map(|k| &inter[k]), if ok { "" } else { ", PANIC" }, p, h));
+                }
+            }
             // ... and reading at only some of the steps (zero get() calls elsewhere) changes nothing where it is read
             let skip: Vec<bool> = (0..h.len()).map(|_| r2.chance(0.6)).collect();
             let sp = run_sparse(&p, p.cmd, &h, &skip);
@@ -480,6 +502,7 @@ fn main() {
         }
     }
     rep.floor("fresh_comparisons/CommandPID/set-different", 10);
+    rep.floor("interleaved_instance_runs", 1000);
     rep.floor("freeze/cond_true", 100);
     rep.floor("freeze/cond_none", 100);
     rep.finish(&args);
